@@ -7,6 +7,7 @@ import (
 
 	"pmc/internal/comp"
 	"pmc/internal/harness"
+	"pmc/internal/model"
 )
 
 // C12 — poryswitch contributes exactly the selected case and nothing else.
@@ -286,6 +287,30 @@ func runC12(tier string) int {
 				Replay: map[string]interface{}{"position": pos.name, "source": src, "switches": o.Switches, "selected_source": selSrc, "output": res.Out, "selected_output": ref.Out}})
 		}
 	})
+	// the property lifted over the control-flow program families: every program with (1) its whole body, (2) every
+	// block, (3) each single top-level statement (colon form) moved into the selected case of a poryswitch - selected
+	// directly or through '_' after an unselected case - must compile to exactly the output of the plain program
+	plans, swN := enginePlans(tier)
+	forEachEngineProgram(r, plans, swN, func(w int, p engineProgram) {
+		src := model.Print([]*model.Script{p.Script})
+		o := comp.Opts{Optimize: true, Switches: map[string]string{"PV": "SEL"}}
+		ref := comp.Compile(src, o)
+		if ref.Err != nil || ref.Panic != "" {
+			return
+		}
+		for vi, v := range c12Wrappings(src) {
+			res := comp.Compile(v, o)
+			r.Add("evaluations", 1)
+			r.Add("family_wrappings", 1)
+			r.Add("nontrivial", 1)
+			if res.Err != nil || res.Panic != "" || res.Out != ref.Out {
+				v2 := v
+				r.Report(harness.Violation{Sig: fmt.Sprintf("C12:family:wrapping%d", vi), Summary: fmt.Sprintf("%s: moving statements into the selected poryswitch case (wrapping %d) changes the result (%v %s): %s\n  source: %q", p.Desc, vi, res.Err, firstLine(res.Panic), firstDiff(res.Out, ref.Out), clip(v, 600)),
+					Replay:  map[string]interface{}{"source": v, "switches": o.Switches, "selected_source": src, "output": res.Out, "selected_output": ref.Out},
+					Recheck: func() bool { r2 := comp.Compile(v2, o); return r2.Err != nil || r2.Out != ref.Out }})
+			}
+		}
+	})
 	if !done || !longDone {
 		r.NotExhaustive("job list not completed")
 	}
@@ -297,5 +322,71 @@ func runC12(tier string) int {
 		"the selected program must itself be well-formed; case contents never contain 'continue'",
 		"line markers off; all switch keys defined; the file also defines constants named like case labels and switch values")
 	return r.Finish(r.Get("evaluations"), r.Get("nontrivial"),
-		"every poryswitch with 1-3 distinct case labels from {A, B, 1, _} in every order x colon/brace form per case x every content assignment (11-13 statement contents incl. one literal formatted under different parameters in different cases, inline texts, typed texts, labels, control flow, nested poryswitches; 8 text contents incl. typed, formatted (also one literal under three parameter sets) and multi-part; 7 movement and 6 mart contents incl. nested poryswitches, multipliers, terminators) in 8 positions (statement, in if, in loop, in inline map script, text, movement, moves(), mart) x -s value in {A, B, 1, non-matching}; plus poryswitches with K cases for every K up to the bound in the coverage in every position with the first / middle / last case or '_' selected; output compared byte for byte with the program in which the selected case is written out; non-trivial = >= 2 cases")
+		"every poryswitch with 1-3 distinct case labels from {A, B, 1, _} in every order x colon/brace form per case x every content assignment (11-13 statement contents incl. one literal formatted under different parameters in different cases, inline texts, typed texts, labels, control flow, nested poryswitches; 8 text contents incl. typed, formatted (also one literal under three parameter sets) and multi-part; 7 movement and 6 mart contents incl. nested poryswitches, multipliers, terminators) in 8 positions (statement, in if, in loop, in inline map script, text, movement, moves(), mart) x -s value in {A, B, 1, non-matching}; plus poryswitches with K cases for every K up to the bound in the coverage in every position with the first / middle / last case or '_' selected; also every program of the control-flow families (C01 / C03 / C04 bounds) with its whole body, every block, or one top-level statement moved into the selected case (brace and colon form, selected directly and through '_'); output compared byte for byte with the program in which the selected case is written out; non-trivial = >= 2 cases")
+}
+
+// c12Wrappings rewrites a printed single-script program (one statement per line, tab indentation) so that
+// statements sit inside the selected case of a poryswitch on PV (compiled with PV=SEL).
+func c12Wrappings(src string) []string {
+	lines := strings.Split(strings.TrimRight(src, "\n"), "\n")
+	if len(lines) < 2 {
+		return nil
+	}
+	head, body, tail := lines[0], lines[1:len(lines)-1], lines[len(lines)-1]
+	indent := func(ls []string, by string) []string {
+		out := make([]string, len(ls))
+		for i, l := range ls {
+			out[i] = by + l
+		}
+		return out
+	}
+	join := func(parts ...[]string) string {
+		var all []string
+		for _, p := range parts {
+			all = append(all, p...)
+		}
+		return strings.Join(all, "\n") + "\n"
+	}
+	var out []string
+	// 0: whole body in a directly selected brace case
+	out = append(out, join([]string{head, "\tporyswitch(PV) {", "\t\tSEL {"}, indent(body, "\t\t"), []string{"\t\t}", "\t\t_ { other }", "\t}", tail}))
+	// 1: whole body in '_' after an unselected case that holds commands, a text and a label
+	out = append(out, join([]string{head, "\tporyswitch(PV) {", "\t\tNOPE {", "\t\t\tother(\"unselected\")", "\t\t\tUnselectedLabel:", "\t\t\tif (flag(UNSEL)) {", "\t\t\t\tother2", "\t\t\t}", "\t\t}", "\t\t_ {"}, indent(body, "\t\t"), []string{"\t\t}", "\t}", tail}))
+	// 2: every block body wrapped
+	var wrapped []string
+	var stack []string
+	for _, l := range lines {
+		t := strings.TrimLeft(l, "\t")
+		ind := l[:len(l)-len(t)]
+		if len(stack) > 0 && stack[len(stack)-1] == ind && strings.HasPrefix(t, "}") {
+			wrapped = append(wrapped, ind+"\t\t}", ind+"\t\t_ { other }", ind+"\t}")
+			stack = stack[:len(stack)-1]
+		}
+		extra := strings.Repeat("\t\t", len(stack))
+		wrapped = append(wrapped, extra+l)
+		if strings.HasSuffix(t, "{") && !strings.HasPrefix(t, "script") && !strings.HasPrefix(t, "switch") {
+			wrapped = append(wrapped, extra+ind+"\tporyswitch(PV) {", extra+ind+"\t\tSEL {")
+			stack = append(stack, ind)
+		}
+	}
+	if len(stack) == 0 {
+		out = append(out, strings.Join(wrapped, "\n")+"\n")
+	}
+	// 3..: one top-level statement in a colon case (first four statements)
+	var starts []int
+	for i, l := range body {
+		if strings.HasPrefix(l, "\t") && !strings.HasPrefix(l, "\t\t") && !strings.HasPrefix(l, "\t}") {
+			starts = append(starts, i)
+		}
+	}
+	for si := 0; si < len(starts) && si < 4; si++ {
+		from, to := starts[si], len(body)
+		if si+1 < len(starts) {
+			to = starts[si+1]
+		}
+		stmt := indent(body[from:to], "\t")
+		stmt[0] = "\t\tSEL: " + strings.TrimLeft(body[from], "\t")
+		out = append(out, join([]string{head}, body[:from], []string{"\tporyswitch(PV) {", "\t\tNOPE: other"}, stmt, []string{"\t\t_: other3", "\t}"}, body[to:], []string{tail}))
+	}
+	return out
 }
